@@ -149,13 +149,17 @@ def dispatch_cascade(ctx):
                             continue
                         bad = 'decoder %s runs after %s already claimed the frame' % (b, a)
                     if rd == 1 and lss == 0:
+                        # "unless the node has been stopped (CONodeStop: CO_INVALID) a frame no service claims is handed to
+                        # the application exactly once" - in INIT as well, where no service is permitted
+                        if claimed_by is None and mode != 'CO_INVALID' and recv != 1:
+                            bad = 'unclaimed frame handed to the application %d times in %s' % (recv, mode)
                         if claimed_by is None and allowed != 0 and recv != 1:
                             bad = 'unclaimed frame handed to the application %d times' % recv
                         if claimed_by is None and allowed != 0 and sends:
                             bad = 'transmission on the unclaimed-frame path'
                         if claimed_by is not None and recv:
                             bad = 'claimed frame also handed to the application'
-                        if allowed == 0 and (recv or decs):
+                        if allowed == 0 and (decs or (recv and mode == 'CO_INVALID')):
                             bad = 'services react although nothing is allowed'
                     for d in decs:
                         reacted.add(DECODERS[d])
